@@ -76,6 +76,9 @@ def setExpression (c : Option Chain) (s e : Rat) (x : Nat) : SetResult :=
       .ok { elems := pre ++ [⟨c.lastStart, s, 0⟩, ⟨s, e, x⟩], lastStart := e, earliest, latest }
     | el :: rest =>
       if el.expr ≠ 0 ∧ el.start < e then .overlap
+      -- `element.next != nil && element.end < newElement.end` (every listed element has a successor):
+      -- the interval starts in this gap but reaches into the frame that follows it
+      else if el.stop < e then .overlap
       else
         .ok { elems := pre ++ [⟨el.start, s, el.expr⟩, ⟨s, e, x⟩, ⟨e, el.stop, el.expr⟩] ++ rest,
               lastStart := c.lastStart, earliest, latest }
